@@ -156,6 +156,10 @@ func (s *SFlow) run() {
 		sFlowUDPCh <- SFUDPMsg{raddr, b[:n]}
 	}
 
+	// the listener is closed by the loop that owns it: shutdown may run before
+	// the listener exists
+	s.conn.Close()
+
 	// the receive loop is the only sender: closing the channel here, and not in
 	// shutdown, can not race with a send that is still in progress
 	close(sFlowUDPCh)
@@ -171,7 +175,6 @@ func (s *SFlow) shutdown() {
 	s.stop = true
 	logger.Println("stopping sflow service gracefully ...")
 	time.Sleep(1 * time.Second)
-	s.conn.Close()
 	logger.Println("sFlow has been shutdown")
 }
 
